@@ -57,7 +57,7 @@ def _pad_path(prefix, suffix, total, rnd, alphabet="abcdefghij/._-%41"):
     return out
 
 
-BAD_URLS = ["http://h.ex/", "gemini://u@h.ex/", "gemini:///nohost", "gemini://h.ex/#frag",
+BAD_URLS = ["gemini://[::1/x", "gemini://[not-an-address]/", "http://h.ex/", "gemini://u@h.ex/", "gemini:///nohost", "gemini://h.ex/#frag",
             "//h.ex/x", "h.ex/path", "gemini://u:p@h.ex/", "https://h.ex/"]
 BAD_TITAN = [";size=-1", ";mime=text/plain", ";size=abc", ";size=", ";size=1.5"]
 
